@@ -3,7 +3,6 @@ From Coq Require Import QArith Qabs ZArith List Bool Arith.
 From LV Require Import Common.Cases Align.DP Align.Calign Align.CalignExec Align.Malign.
 Import ListNotations.
 
-Definition qclose (a b : Q) : bool := Qle_bool (Qabs (a - b)) (1 # 1099511627776).
 
 Definition sw_result_eqb (r1 r2 : sw_result) : bool :=
   match r1, r2 with
